@@ -12,7 +12,7 @@ def fmt_terms(terms, limit=3):
     xs = sorted({sym.fmt(t) for t in terms if not (isinstance(t, tuple) and t[0] == "var")})
     if not xs:
         xs = sorted({sym.fmt(t) for t in terms})
-    xs = [re.sub(r"promoted\[\d+\]", "promoted", x) for x in xs]
+    xs = [re.sub(r"var:\w+", "var", re.sub(r"promoted\[\d+\]", "promoted", x)) for x in xs]
     return "|".join(xs[:limit]) if xs else "?"
 
 
